@@ -264,6 +264,9 @@ func RunCaseOpts(c *Case, pick func(n int) int, o RunOpts) *Result {
 					break
 				}
 			}
+			if client[0].Kind == "start" {
+				finalStops = 0 // a new run gets its own budget of runner-issued stops
+			}
 			r.Issue(client[0])
 			client = client[1:]
 		}
@@ -301,6 +304,9 @@ func RunCaseOpts(c *Case, pick func(n int) int, o RunOpts) *Result {
 				}
 				continue
 			}
+			if client[0].Kind == "start" {
+				finalStops = 0
+			}
 			r.Issue(client[0])
 			client = client[1:]
 			continue
@@ -324,6 +330,9 @@ func RunCaseOpts(c *Case, pick func(n int) int, o RunOpts) *Result {
 			}
 			// End of script: drain the pipeline with a graceful stop.
 			finalStops++
+			if finalStops > 1 {
+				time.Sleep(time.Duration(finalStops) * 20 * time.Millisecond)
+			}
 			if c.HasHold() {
 				// a plugin that never answers can only be ended by force
 				r.Issue(ClientAction{Kind: "forcestop"})
